@@ -550,3 +550,53 @@ pub fn consist_trace(r: &mut Rng, con: Consist, n: usize) -> Vec<ConsistStep> {
     }
     out
 }
+
+// ---------------------------------------------------------------- whole walks
+/// Re-run the accepted steps of a trace through `LocomotiveSimulation::walk` on a fresh clone of
+/// the initial locomotive; returns (initial loco, trace entries, final loco or error).
+pub fn loco_walk_of(steps: &[LocoStep]) -> Option<(Locomotive, Vec<(f64, f64, bool)>, Result<Locomotive, (i64, String)>)> {
+    let init = steps.first()?.pre.clone();
+    let acc: Vec<&LocoStep> = steps.iter().filter(|s| s.post.is_ok()).collect();
+    if acc.is_empty() { return None; }
+    let mut time = vec![0.0f64]; let mut pwr = vec![0.0f64]; let mut on = vec![Some(true)];
+    let mut t = 0.0;
+    for s in &acc { t += s.dt; time.push(t); pwr.push(s.pwr); on.push(Some(s.engine_on)); }
+    let mut sim = LocomotiveSimulation::new(init.clone(), PowerTrace::new(time.clone(), pwr, on), None);
+    let entries: Vec<(f64, f64, bool)> = (1..time.len()).map(|i| (acc[i - 1].pwr, sim.power_trace.dt(i).value, acc[i - 1].engine_on)).collect();
+    let res = catch(std::panic::AssertUnwindSafe(|| sim.walk()));
+    let fin = match res { Ok(Ok(())) => Ok(sim.loco_unit.clone()), Ok(Err(e)) => Err(err_code(&e)), Err(p) => Err((-1, p)) };
+    Some((init, entries, fin))
+}
+pub fn consist_walk_of(steps: &[ConsistStep]) -> Option<(Consist, Vec<(f64, f64)>, Result<Consist, (i64, String)>)> {
+    let init = steps.first()?.pre.clone();
+    let acc: Vec<&ConsistStep> = steps.iter().filter(|s| s.post.is_ok()).collect();
+    if acc.is_empty() { return None; }
+    let mut time = vec![0.0f64]; let mut pwr = vec![0.0f64]; let mut on = vec![Some(true)];
+    let mut t = 0.0;
+    for s in &acc { t += s.dt; time.push(t); pwr.push(s.pwr); on.push(Some(true)); }
+    let mut sim = ConsistSimulation::new(init.clone(), PowerTrace::new(time.clone(), pwr, on), None);
+    let entries: Vec<(f64, f64)> = (1..time.len()).map(|i| (acc[i - 1].pwr, sim.power_trace.dt(i).value)).collect();
+    let res = catch(std::panic::AssertUnwindSafe(|| sim.walk()));
+    let fin = match res { Ok(Ok(())) => Ok(sim.loco_con.clone()), Ok(Err(e)) => Err(consist_err_code(&e)), Err(p) => Err((-1, p)) };
+    Some((init, entries, fin))
+}
+pub fn walk_case_loco(id: String, steps: &[LocoStep]) -> Option<Case> {
+    let (init, entries, fin) = loco_walk_of(steps)?;
+    let tr = entries.iter().map(|(p, d, o)| format!("({}, {}, {})", cf(*p), cf(*d), cb(*o))).collect::<Vec<_>>().join("; ");
+    let coq = format!("x_loco_walk {} [{}]", coq_loco(&init), tr);
+    let outcome = match &fin { Ok(l) => Outcome::Ok(outs_loco(l)), Err((-1, m)) => Outcome::Panic(m.clone()), Err((c, m)) => Outcome::Err(*c, m.clone()) };
+    Some(Case { id, kind: "loco_walk".into(), coq, outcome, tags: vec![format!("walk_len:{}", entries.len())],
+        input: serde_json::json!({"loco_yaml": serde_yaml::to_string(&init).unwrap_or_default(),
+            "trace": entries.iter().map(|(p, d, o)| serde_json::json!([fjson(*p), fjson(*d), o])).collect::<Vec<_>>()}),
+        oracle_fail: vec![], known: vec![], in_domain: true })
+}
+pub fn walk_case_consist(id: String, steps: &[ConsistStep]) -> Option<Case> {
+    let (init, entries, fin) = consist_walk_of(steps)?;
+    let tr = entries.iter().map(|(p, d)| format!("({}, {})", cf(*p), cf(*d))).collect::<Vec<_>>().join("; ");
+    let coq = format!("x_consist_walk {} [{}]", coq_consist(&init), tr);
+    let outcome = match &fin { Ok(c) => Outcome::Ok(outs_consist(c)), Err((-1, m)) => Outcome::Panic(m.clone()), Err((c, m)) => Outcome::Err(*c, m.clone()) };
+    Some(Case { id, kind: "consist_walk".into(), coq, outcome, tags: vec![format!("walk_len:{}", entries.len())],
+        input: serde_json::json!({"consist_yaml": serde_yaml::to_string(&init).unwrap_or_default(),
+            "trace": entries.iter().map(|(p, d)| serde_json::json!([fjson(*p), fjson(*d)])).collect::<Vec<_>>()}),
+        oracle_fail: vec![], known: vec![], in_domain: true })
+}
